@@ -25,11 +25,16 @@ def main():
     wt, sid, props = sys.argv[1], sys.argv[2], sys.argv[3:]
     env = {"PYTHONPATH": wt}
     demo = sorted(glob.glob(os.path.join(wt, "demo_*.py")))[0]
-    rc_with, out_with, _ = sh(["/venv/bin/python", demo], wt, env, 900)
-    sh("git stash push -q -- processscheduler", wt)
-    rc_without, _o, _e = sh(["/venv/bin/python", demo], wt, env, 900)
-    sh("git stash pop -q", wt)
     rc, patch, _ = sh("git diff -- processscheduler", wt)
+    tmp_patch = os.path.join(wt, ".seed_patch.diff")
+    with open(tmp_patch, "w") as f:
+        f.write(patch)
+    rc_with, out_with, _ = sh(["/venv/bin/python", demo], wt, env, 900)
+    # (git stash is shared between worktrees: use apply -R / apply)
+    sh(f"git apply -R {tmp_patch}", wt)
+    rc_without, _o, _e = sh(["/venv/bin/python", demo], wt, env, 900)
+    sh(f"git apply {tmp_patch}", wt)
+    os.remove(tmp_patch)
     t0 = time.time()
     rc_suite, out_suite, _ = sh(["/venv/bin/python", "-m", "pytest", "-q", "-p", "no:cacheprovider", "-n", "8", "--dist",
                                  "loadfile", "test"], wt, env, 3600)
